@@ -163,6 +163,27 @@ func execG(t *testing.T, c GCall) string {
 			return "error"
 		}
 		return hex.EncodeToString(res[:])
+	case "aggregate_verify": // ThresholdAggregate(items under ids), then Verify(public key in Chunks[0], msg, aggregate)
+		m := map[int]rtbls.Signature{}
+		for i, id := range c.IDs {
+			var k rtbls.Signature
+			if !fill(k[:], c.Items[i]) {
+				return "bad-input"
+			}
+			m[id] = k
+		}
+		var pk rtbls.PublicKey
+		if len(c.Chunks) != 1 || !fill(pk[:], c.Chunks[0]) {
+			return "bad-input"
+		}
+		agg, err := rtbls.ThresholdAggregate(m)
+		if err != nil {
+			return "aggregate-error"
+		}
+		if rtbls.Verify(pk, unhex(c.Msg), agg) != nil {
+			return "does-not-verify"
+		}
+		return "verifies"
 	case "verify", "verify_aggregate":
 		var sig rtbls.Signature
 		if !fill(sig[:], c.Sig) {
